@@ -195,6 +195,8 @@ def census(ctx, chk, g, reach, label):
         name = mir_name(k) if "<" not in k.split("::", 1)[1][:1] else k
         full = k
         for s in panicx.sites(g, k):
+            if s["kind"] == "call" and not s["detail"].strip():
+                continue        # a call through a function pointer / closure value: the pointee is a crate function, censused on its own
             if s["kind"] == "call":
                 cls = AUD.classify(s["detail"])
                 callees.add(s["detail"])
@@ -532,6 +534,8 @@ def discharge(ctx, chk, g, with_main=False):
                     from ..symeval import Hooks as _H
                     cv_ = _H().resolve_const(path_of(n[3]))
                     v = cv_ if isinstance(cv_, int) else None
+                    if v is None and path_of(n[3]).split("::")[-1] == "BITS" and len(path_of(n[3]).split("::")) >= 2:
+                        v = {"u8": 8, "u16": 16, "u32": 32, "Word": 32}.get(path_of(n[3]).split("::")[-2])
                 if v is None or not (0 <= v < 32):
                     bad.append(show(n))
             if n[0] == "binary" and n[1] in ("/", "%"):
